@@ -1,10 +1,49 @@
-//! C04 — not built yet.
+//! C04 Store holds only complete, verified publication points.
+
+use proptest::strategy::Strategy;
 
 use crate::core::*;
+use crate::erpki::*;
+use crate::erun::*;
+use crate::escen::*;
 
-pub const IMPLEMENTED: bool = false;
+fn profile() -> HistProfile {
+    let mut hp = HistProfile::default();
+    hp.base.fault_16 = 4;
+    hp.base.obj_faults = false;
+    hp.incomplete_16 = 4;
+    hp.rollback_16 = 2;
+    hp.fail_module_16 = 2;
+    hp.offline_16 = 3;
+    hp
+}
 
-pub fn run(_ctx: &Ctx, _rep: &mut Report, _replay: Option<&serde_json::Value>) {
-    eprintln!("C04: check not implemented");
-    std::process::exit(2);
+fn refused_after_success(sc: &Scenario) -> bool {
+    sc.cas.iter().any(|ca| ca.versions.iter().skip(1).any(|v| v.fault.is_some() && !matches!(v.fault, Some(PpFault::StrayFile) | Some(PpFault::OddFiles)))) || sc.steps.iter().skip(1).any(|s| !s.fail_modules.is_empty())
+}
+
+fn prop(sc: &Scenario, info: &mut CaseInfo) -> Verdict {
+    let j = Judge { id: "C04", sound: true, complete: true, store: true, ..Default::default() };
+    let v = judge(&j, sc, info, |_, _| None);
+    info.nontrivial = refused_after_success(sc);
+    for c in history_classes(sc) {
+        info.class(c);
+    }
+    v
+}
+
+pub fn run(ctx: &Ctx, rep: &mut Report, replay: Option<&serde_json::Value>) {
+    rep.rule("E-rpki histories of 2-4 runs (online, unreachable modules, offline runs) where later versions carry manifest/CRL/file faults (bad signature, garbage, missing, expired EE, wrong CRL URI, CRL missing/unlisted/bad signature/hash mismatch/revoking the manifest, listed file missing, hash mismatch); oracle after every run: the stored point of each CA, read back with routinator's own reader, equals byte-for-byte the last version the model accepted from the fetch path (manifest, CRL, exactly the listed files, stored hashes verify), or is absent; payload equals the model (so the stored copy is usable, incl. offline runs); non-trivial = a faulty/refused update or transport failure after the first run; distinct by serialised scenario");
+    rep.assume("reference model Appendix A");
+    ctx.shrink_iters.store(120, std::sync::atomic::Ordering::Relaxed);
+    if let Some(v) = replay {
+        let t: Tagged<Scenario> = serde_json::from_value(v.clone()).expect("replay");
+        run_case(ctx, rep, &t.sub, &t.case, prop);
+        return;
+    }
+    let hp = profile();
+    run_prop_par(ctx, rep, "history", ctx.tier.pick(240, 6000), 8, || genome(260).prop_map({
+        let hp = hp.clone();
+        move |w| history_run(&w, &hp)
+    }), prop);
 }
